@@ -265,6 +265,16 @@ fn mutate(cf: &mut Cf, step: &str) {
                 }
             }
         }
+        "set_len_max" => {
+            for p in streams(cf) {
+                if let Ok(mut s) = cf.open_stream(&p) {
+                    let _ = s.set_len(u64::MAX);
+                    let _ = s.set_len(u64::MAX - 5000);
+                    let _ = s.seek(SeekFrom::End(0));
+                    let _ = s.write(&[1u8; 10]);
+                }
+            }
+        }
         "set_len_zero" => {
             for p in streams(cf) {
                 if let Ok(mut s) = cf.open_stream(&p) {
